@@ -19,6 +19,8 @@ structure Font where
   names : List (List Nat)
   /-- the best cmap subtable: rune ↦ glyph id (first match; absent or 0 = not mapped) -/
   cmap : List (Nat × Nat)
+  /-- the font has no usable cmap table (`GetBest` fails): strings cannot be used -/
+  noCmap : Bool := false
 deriving Repr, DecidableEq
 
 /-- `byName[name]`: the map is filled for gid = 0, 1, …, so the last glyph with that name wins -/
@@ -182,6 +184,7 @@ def readGlyphListLoop (f : Font) : Nat → List Nat → Bool → PM (List Nat)
           let (res', hy') ← addGids [gid] res hy
           readGlyphListLoop f fuel res' hy'
       else if item.typ == tString then
+        if f.noCmap then fatal "font has no cmap" else
         let next ← mapRunes f (decodeString item)
         let (res', hy') ← addGids next res hy
         readGlyphListLoop f fuel res' hy'
